@@ -1,6 +1,7 @@
 import Proofs.TermTrunc
 import Proofs.TermDraw
 import Proofs.TermIngest
+import Proofs.PaintLine
 /-!
 C09 — output lines are self-contained, well-formed terminal text.
 
@@ -245,5 +246,118 @@ example : ingestRaw true true 2 [.esc "\x1b[7m".toList, .text [⟨"→".toList, 
     some ("\x1b[38;2;1;2;3ma\x1b[0m\x1b[38;2;4;5;6m\x1b[0m\x1b[38;2;7;8;9m\x1b[0m\x1b[7m→\x1b[0m".toList) ∧
     selfContained ("\x1b[38;2;1;2;3ma\x1b[0m\x1b[38;2;4;5;6m\x1b[0m\x1b[38;2;7;8;9m\x1b[0m\x1b[7m→\x1b[0m".toList) := by
   decide
+
+/-! ### Session 4 (T5): the painted line is built inside the model
+
+`PaintLine.paintedLine cfg inp` (`DeltaModel/PaintLine.lean`) produces the bytes of one output line of
+`Painter::paint_lines` from the state, the line-number strings, the superimposed (style, clusters) sections, the
+diff sections' styles and the flags, following `paint_line`, `painted_prefix`, the fill decision and the if-chain of
+`paint_lines` as they stand in the current source (`Generated.PaintLine`). No partition of a painted line into text and
+escape sequences is an input any more: `PaintLine.lineItems` makes it. -/
+section PaintedLine
+open PaintLine PaintLineProofs
+
+/-- **Every line `paint_lines` writes is self-contained** — hunk lines (with and without homolog, wrapped, raw:
+`HunkMinus(_, Some(raw))` whose sections are parsed from the raw line, combined-diff lines with their merge prefix),
+blame, grep and hunk-header code lines — with line numbers in front, with `--keep-plus-minus-markers`, whichever way
+the line is finished (ANSI fill, space fill for every terminal width and text width, empty-line marker, nothing).
+Hypotheses: `Cfg.wf` / `Input.ok` — the styles are values of the Rust type (a basic colour is one of the eight), and no
+text (line-number field, merge prefix, section) contains ESC (a hyperlink target: neither ESC nor BEL). The first
+conjunct: the statements of `paint_line`, of the loop of `paint_lines`, of `right_fill_background_color`,
+`mark_empty_line`, `Style::paint` and the callers of `paint_lines` in the current source are the modelled ones. -/
+theorem painted_line_self_contained (cfg : Cfg) (hcfg : Cfg.wf cfg) (inp : Input) (hin : Input.ok inp)
+    (out : List Char) (h : paintedLine cfg inp = .ok out) :
+    shapeAsModelled = true ∧ selfContained out :=
+  ⟨shape_as_modelled, paintedLine_selfContained cfg hcfg inp hin out h⟩
+
+def exRed : Sgr.Style := { fg := some (.basic 1), bg := some (.fixed 52) }
+def exRedEmph : Sgr.Style := { fg := some (.basic 1), bg := some (.fixed 88), bold := true }
+/-- All four removed / added-line styles equal: the bytes below do not depend on which arm of the fill-style `match`
+names which of them (that is not C09's business; the model follows the generated arms). -/
+def exCfg : Cfg :=
+  { minusStyle := exRed, plusStyle := exRed, minusNonEmph := exRed, plusNonEmph := exRed, keepMarkers := true,
+    availWidth := 8 }
+def exInp : Input :=
+  { st := .hunk .minus false none
+    sections := [(exRed, [⟨['a'], 1⟩, ⟨['日'], 2⟩]), (exRedEmph, [⟨['c'], 1⟩])]
+    diffSections := [(exRed, "a日".toList), (exRedEmph, "c\n".toList)] }
+
+/-- A removed line with an emphasised section, the marker kept, ANSI fill; the same line with the space fill
+(text width 5 of 8 columns: three spaces). -/
+example : (paintedLine exCfg exInp).toOption =
+      some "\x1b[48;5;52;31m-a日\x1b[1;48;5;88mc\x1b[0m\x1b[48;5;52;31m\x1b[0K\x1b[0m".toList ∧
+    (paintedLine exCfg { exInp with bg := .with_ .spaces }).toOption =
+      some "\x1b[48;5;52;31m-a日\x1b[1;48;5;88mc\x1b[0m\x1b[48;5;52;31m   \x1b[0m".toList := by decide +kernel
+
+/-- The hypothesis on texts is needed: a section whose text carries an unclosed sequence (and a plain style, no fill)
+gives a line that leaves the colour on. -/
+example : (paintedLine {} { st := .other, sections := [({}, [⟨"\x1b[31m".toList, 0⟩, ⟨['x'], 1⟩])] }).toOption =
+      some "\x1b[31mx".toList ∧ ¬ selfContained "\x1b[31mx".toList := by decide +kernel
+
+/-- **The item partition is made by the model**: `lineItems` of the strings handed to `ANSIStrings` flattens to exactly
+the painted string, every text item is ESC-free and every escape item a complete sequence — what `Row.ok` used to
+*assume* of the partition of a side-by-side panel line. -/
+theorem painted_line_items (xs : List (Sgr.Style × PPiece)) (h : ∀ x ∈ xs, Style.wf x.1 ∧ PPiece.ok x.2) :
+    flatten (lineItems xs) = paintLine (toPieces xs) ∧ (∀ i ∈ lineItems xs, Item.ok i) ∧
+    selfContained (flatten (lineItems xs)) :=
+  ⟨flatten_lineItems xs, lineItems_ok xs h, by rw [flatten_lineItems]; exact strings_selfContained xs h⟩
+
+example : lineItems [(exRed, .linked "file:///f".toList [⟨['1'], 1⟩, ⟨['2'], 1⟩]), ({}, .plain [⟨['x'], 1⟩])] =
+    [.esc "\x1b[48;5;52;31m".toList, .esc "\x1b]8;;file:///f\x1b\\".toList, .text [⟨['1'], 1⟩, ⟨['2'], 1⟩],
+     .esc "\x1b]8;;\x1b\\".toList, .esc "\x1b[0m".toList, .text [⟨['x'], 1⟩]] := by decide +kernel
+
+theorem toPieces_ok (xs : List (Sgr.Style × PPiece)) (h : ∀ x ∈ xs, Style.wf x.1 ∧ PPiece.ok x.2) :
+    stringsOk (toPieces xs) := by
+  intro x hx
+  simp only [toPieces, List.mem_map] at hx
+  obtain ⟨y, hy, rfl⟩ := hx
+  refine ⟨(h y hy).1, ?_⟩
+  have := (h y hy).2
+  cases hp : y.2 with
+  | plain gs => rw [hp] at this; exact gchars_noesc gs this
+  | linked u gs => rw [hp] at this; exact ⟨this.1, this.2.1, gchars_noesc gs this.2.2⟩
+
+/-- **A side-by-side row without an input partition**: two panels whose strings are given as (style, clusters), the
+items computed by the model, padded / truncated / filled by `padPanel`: self-contained. Remaining hypotheses: styles
+are Rust values, texts ESC-free, the truncation symbol well-formed and balanced (`PadSpec.ok`). -/
+theorem sbs_row_self_contained (l r : List (Sgr.Style × PPiece)) (sl sr : PadSpec)
+    (hl : ∀ x ∈ l, Style.wf x.1 ∧ PPiece.ok x.2) (hr : ∀ x ∈ r, Style.wf x.1 ∧ PPiece.ok x.2)
+    (hsl : PadSpec.ok sl) (hsr : PadSpec.ok sr) (out : List Char)
+    (h : (Row.sideBySide (toPieces l) (toPieces r) (lineItems l) (lineItems r) sl sr).render = some out) :
+    selfContained out :=
+  line_self_contained (Row.sideBySide (toPieces l) (toPieces r) (lineItems l) (lineItems r) sl sr)
+    (show Row.ok (Row.sideBySide _ _ _ _ _ _) from
+      ⟨toPieces_ok l hl, toPieces_ok r hr, flatten_lineItems l, flatten_lineItems r,
+       lineItems_ok l hl, lineItems_ok r hr, hsl, hsr⟩) out h
+
+example : (Row.sideBySide (toPieces [(exRed, .plain [⟨['a'], 1⟩, ⟨['日'], 2⟩, ⟨['b'], 1⟩])]) (toPieces [])
+      (lineItems [(exRed, .plain [⟨['a'], 1⟩, ⟨['日'], 2⟩, ⟨['b'], 1⟩])]) (lineItems [])
+      { panelWidth := 3, tail := [.text [⟨['>'], 1⟩]], fillMode := .spaces, fillStyle := exRed }
+      { panelWidth := 3, fillMode := .ansi }).render =
+    some "\x1b[48;5;52;31ma \x1b[0m>\x1b[0K\x1b[0m".toList := by decide +kernel
+
+/-- Balanced: the decidable side condition on a raw line (its own sequences return the terminal to the default
+state, no sequence cut, no link left open). -/
+def balanced (raw : List Char) : Bool := decide (selfContained raw)
+
+/-- **Raw rows**: a raw line that is balanced stays self-contained under everything delta puts after it — the ANSI
+fill, the space fill of any width, the empty-line marker, any self-contained suffix (the decoration pieces of
+`draw.rs`, the second panel) — and in front of it (line-number strings painted by `paint_line`). -/
+theorem raw_row_self_contained (raw : List Char) (hb : balanced raw = true) (st : Sgr.Style) (hwf : Style.wf st) :
+    selfContained (rightFill raw st) ∧ (∀ n, selfContained (spacesFill raw st n)) ∧
+    (∀ m : Option (List Char), (∀ t, m = some t → ESC ∉ t) → selfContained (markEmpty raw st m)) ∧
+    (∀ pre suf, selfContained pre → selfContained suf → selfContained (pre ++ raw ++ suf)) := by
+  have h : selfContained raw := by simpa [balanced] using hb
+  exact ⟨rightFill_selfContained raw st hwf h, fun n => spacesFill_selfContained raw st hwf n h,
+    fun m hm => markEmpty_selfContained raw st hwf m hm h,
+    fun pre suf hp hs => selfContained_append _ _ (selfContained_append _ _ hp h) hs⟩
+
+/-- git's colouring of a moved line is balanced; a line that opens a colour and never closes it is not, and the space
+fill behind it then inherits the colour: the side condition is needed. An open hyperlink survives even the ANSI fill. -/
+example : balanced "\x1b[1;35m-moved\x1b[m".toList = true ∧ balanced "\x1b[31mopen".toList = false ∧
+    ¬ selfContained (spacesFill "\x1b[31mopen".toList {} 3) ∧
+    ¬ selfContained (rightFill "\x1b]8;;http://x\x1b\\open".toList { bg := some (.fixed 52) }) := by decide
+
+end PaintedLine
 
 end C09
